@@ -108,7 +108,9 @@ def pair_counts(cat1, cat2, P, edges, closed, theta_lo, theta_hi, *, auto=False,
         for s in range(ns):
             lo, hi = theta_lo[s, b], theta_hi[s, b]
             inside = (Sb > lo) & (Sb <= hi)
-            amb_edge = _near(Sb, lo) | _near(Sb, hi)
+            # a lower limit of exactly 0: coincident points (separation exactly 0) are certainly outside (0, hi]
+            near_lo = ((Sb > 0) & (Sb <= AMBIG_ABS)) if lo == 0.0 else _near(Sb, lo)
+            amb_edge = near_lo | _near(Sb, hi)
             sure = inside & ~amb_edge
             maybe = inside | amb_edge
             npairs[s, b] = int(sure.sum())
